@@ -8,6 +8,14 @@
 #include <Spectra/Util/SelectionRule.h>
 #include <Spectra/SymEigsSolver.h>
 #include <Spectra/GenEigsSolver.h>
+#include <Spectra/SymEigsShiftSolver.h>
+#include <Spectra/HermEigsSolver.h>
+#include <Spectra/GenEigsRealShiftSolver.h>
+#include <Spectra/GenEigsComplexShiftSolver.h>
+#include <Spectra/MatOp/DenseSymShiftSolve.h>
+#include <Spectra/MatOp/DenseHermMatProd.h>
+#include <Spectra/MatOp/DenseGenRealShiftSolve.h>
+#include <Spectra/MatOp/DenseGenComplexShiftSolve.h>
 #include <Spectra/MatOp/DenseSymMatProd.h>
 #include <Spectra/MatOp/DenseGenMatProd.h>
 #include <algorithm>
@@ -304,50 +312,100 @@ int main(int argc, char** argv)
             });
         }
 
-    // the solvers reject undefined rules (both as selection and as sorting argument)
-    R.run("solver_rules", 81 * 2, [&](uint64_t idx, Local& L) {
-        int fam = idx / 81, s = (idx % 81) / 9, t = idx % 9;
-        Eigen::MatrixXd A = Eigen::MatrixXd::Zero(6, 6);
-        for (int i = 0; i < 6; i++)
+    // the solvers reject undefined rules (both as selection and as sorting argument): every solver family that dispatches on
+    // a rule x EVERY legal (nev, ncv) for n = 6 x all 81 (selection, sorting) pairs
+    {
+        struct Cfg { int fam, nev, ncv; };
+        static std::vector<Cfg> cfgs;
+        cfgs.clear();
+        for (int fam = 0; fam < 6; fam++)
         {
-            A(i, i) = i + 1;
-            if (i) A(i, i - 1) = A(i - 1, i) = 0.5;
+            const bool gen = fam >= 3;
+            for (int nev = 1; nev <= (gen ? 4 : 5); nev++)
+                for (int ncv = nev + (gen ? 2 : 1); ncv <= 6; ncv++) cfgs.push_back({fam, nev, ncv});
         }
-        bool expect_ok, threw_ia = false, threw_other = false;
-        std::string what;
-        try
-        {
-            if (fam == 0)
+        static const char* FAM[6] = {"SymEigsSolver", "SymEigsShiftSolver", "HermEigsSolver", "GenEigsSolver", "GenEigsRealShiftSolver", "GenEigsComplexShiftSolver"};
+        R.run("solver_rules", 81 * cfgs.size(), [&](uint64_t idx, Local& L) {
+            const Cfg cf = cfgs[idx / 81];
+            const int fam = cf.fam, s = (idx % 81) / 9, t = idx % 9;
+            Eigen::MatrixXd A = Eigen::MatrixXd::Zero(6, 6);
+            for (int i = 0; i < 6; i++)
             {
-                expect_ok = real_supported(s) && (t == 0 || t == 3 || t == 4 || t == 7);
-                Spectra::DenseSymMatProd<double> op(A);
-                Spectra::SymEigsSolver<Spectra::DenseSymMatProd<double>> eigs(op, 2, 5);
-                eigs.init();
-                eigs.compute(RULES[s], 100, 1e-10, RULES[t]);
+                A(i, i) = i + 1;
+                if (i) A(i, i - 1) = A(i - 1, i) = 0.5;
             }
-            else
+            bool expect_ok, threw_ia = false, threw_other = false;
+            std::string what;
+            try
             {
-                expect_ok = cplx_supported(s) && cplx_supported(t);
-                A(0, 5) = 1;
-                Spectra::DenseGenMatProd<double> op(A);
-                Spectra::GenEigsSolver<Spectra::DenseGenMatProd<double>> eigs(op, 2, 5);
-                eigs.init();
-                eigs.compute(RULES[s], 100, 1e-10, RULES[t]);
+                if (fam < 3)
+                {
+                    expect_ok = real_supported(s) && (t == 0 || t == 3 || t == 4 || t == 7);
+                    if (fam == 0)
+                    {
+                        Spectra::DenseSymMatProd<double> op(A);
+                        Spectra::SymEigsSolver<Spectra::DenseSymMatProd<double>> eigs(op, cf.nev, cf.ncv);
+                        eigs.init();
+                        eigs.compute(RULES[s], 100, 1e-10, RULES[t]);
+                    }
+                    else if (fam == 1)
+                    {
+                        Spectra::DenseSymShiftSolve<double> op(A);
+                        Spectra::SymEigsShiftSolver<Spectra::DenseSymShiftSolve<double>> eigs(op, cf.nev, cf.ncv, 0.3);
+                        eigs.init();
+                        eigs.compute(RULES[s], 100, 1e-10, RULES[t]);
+                    }
+                    else
+                    {
+                        Eigen::MatrixXcd Ac = A.cast<std::complex<double>>();
+                        Ac(0, 1) = std::complex<double>(0.5, 0.25); Ac(1, 0) = std::complex<double>(0.5, -0.25);
+                        Spectra::DenseHermMatProd<std::complex<double>> op(Ac);
+                        Spectra::HermEigsSolver<Spectra::DenseHermMatProd<std::complex<double>>> eigs(op, cf.nev, cf.ncv);
+                        eigs.init();
+                        eigs.compute(RULES[s], 100, 1e-10, RULES[t]);
+                    }
+                }
+                else
+                {
+                    expect_ok = cplx_supported(s) && cplx_supported(t);
+                    A(0, 5) = 1;
+                    if (fam == 3)
+                    {
+                        Spectra::DenseGenMatProd<double> op(A);
+                        Spectra::GenEigsSolver<Spectra::DenseGenMatProd<double>> eigs(op, cf.nev, cf.ncv);
+                        eigs.init();
+                        eigs.compute(RULES[s], 100, 1e-10, RULES[t]);
+                    }
+                    else if (fam == 4)
+                    {
+                        Spectra::DenseGenRealShiftSolve<double> op(A);
+                        Spectra::GenEigsRealShiftSolver<Spectra::DenseGenRealShiftSolve<double>> eigs(op, cf.nev, cf.ncv, 0.3);
+                        eigs.init();
+                        eigs.compute(RULES[s], 100, 1e-10, RULES[t]);
+                    }
+                    else
+                    {
+                        Spectra::DenseGenComplexShiftSolve<double> op(A);
+                        Spectra::GenEigsComplexShiftSolver<Spectra::DenseGenComplexShiftSolve<double>> eigs(op, cf.nev, cf.ncv, 0.3, 0.4);
+                        eigs.init();
+                        eigs.compute(RULES[s], 100, 1e-10, RULES[t]);
+                    }
+                }
             }
-        }
-        catch (const std::invalid_argument& e) { threw_ia = true; what = e.what(); }
-        catch (const std::exception& e) { threw_other = true; what = e.what(); }
-        L.evaluations++;
-        L.count("distinct_by_construction");
-        std::string key = std::string(fam ? "GenEigsSolver" : "SymEigsSolver") + ":selection=" + RNAME[s] + ":sorting=" + RNAME[t];
-        if (threw_other) L.violate(key + ":wrong-exception", "solver_rules#" + num(idx), what);
-        else if (expect_ok && threw_ia) L.violate(key + ":rejected-defined-rule", "solver_rules#" + num(idx), what);
-        else if (!expect_ok && !threw_ia) L.violate(key + ":accepted-undefined-rule", "solver_rules#" + num(idx), "compute() returned");
-    });
+            catch (const std::invalid_argument& e) { threw_ia = true; what = e.what(); }
+            catch (const std::exception& e) { threw_other = true; what = e.what(); }
+            L.evaluations++;
+            L.count("distinct_by_construction");
+            std::string key = std::string(FAM[fam]) + ":nev=" + num(cf.nev) + ",ncv=" + num(cf.ncv) + ":selection=" + RNAME[s] + ":sorting=" + RNAME[t];
+            if (threw_other) L.violate(key + ":wrong-exception", "solver_rules#" + num(idx), what);
+            else if (expect_ok && threw_ia) L.violate(key + ":rejected-defined-rule", "solver_rules#" + num(idx), what);
+            else if (!expect_ok && !threw_ia) L.violate(key + ":accepted-undefined-rule", "solver_rules#" + num(idx), "compute() returned");
+        });
+    }
 
     return R.finish(
         "every vector of length 0..7 over {-2,-1,-0,0,1,2} (real) and length 0..5/7 over {0,+-1,+-i,1+-i,2} (complex) x all nine rules x float/double/long double; "
-        "every vector of length 2..5 over an 8-letter alphabet of extreme magnitudes (squares overflow/underflow, denormals, near-max) per type; every vector of length 17 (thorough: ..20) over three two-letter alphabets; all 81 (selection,sorting) pairs through SymEigsSolver and GenEigsSolver. "
+        "every vector of length 2..5 over an 8-letter alphabet of extreme magnitudes (squares overflow/underflow, denormals, near-max) per type; every vector of length 17 (thorough: ..20) over three two-letter alphabets; all 81 (selection,sorting) pairs through six solver families (plain, shift, Hermitian, general, real shift, complex shift) for every legal (nev,ncv) at n=6. "
         "Each index is a distinct input; non-trivial = length >= 2",
         {"std::sort/std::abs of libstdc++", "ties may appear in any order (std::sort is unstable): only key monotonicity and multiset equality are required"});
 }
